@@ -581,7 +581,8 @@ Definition alo_check (s : state) : bool :=
 
 Definition rd (A : Type) := list Z -> option (A * list Z).
 
-Definition rd_nat : rd nat := fun l => match l with z :: r => if (z <? 0)%Z then None else Some (Z.to_nat z, r) | [] => None end.
+Definition rd_nat : rd nat :=
+  fun l => match l with z :: r => if ((z <? 0) || (100000 <? z))%Z then None else Some (Z.to_nat z, r) | [] => None end.
 
 Fixpoint rd_list {A} (f : rd A) (n : nat) : rd (list A) :=
   fun l => match n with
@@ -601,9 +602,10 @@ Definition rd_pair : rd (nat * nat) :=
            | None => None
            end.
 
+(* numbers that may be large (hashes, seeds) are never converted to nat *)
 Definition rd_tok : rd tok :=
-  fun l => match rd_list rd_nat 5 l with
-           | Some ([k; q; p; kp; b], r) => Some (mkTok k q p (negb (Nat.eqb kp 0)) (N.of_nat b), r)
+  fun l => match rd_list rd_nat 4 l with
+           | Some ([k; q; p; kp], b :: r) => Some (mkTok k q p (negb (Nat.eqb kp 0)) (Z.to_N b), r)
            | _ => None
            end.
 
@@ -698,4 +700,74 @@ Definition run_trace_case (c : case) : bytes :=
       end
     end
   end.
-Definition run_case_C01 (c : case) : bytes := run_trace_case c.
+
+(* ---------- kind 1: prediction of the deterministic projection of a scenario from its record plan ----------
+   Z = seed, variant, generations, nconn, generation of each connection, nrec, (conn, class, app, source)...
+   classes: 0 good, 1 filtered (pid = DROPME), 2 malformed (rejected by the parser), 3 multi-line, 4 bad time.
+   A record is ingested as a token unless malformed; it is kept unless filtered; it is routed to the pipeline of
+   its key values: app (one key field) or (app, source) (two key fields: variant bit 0). *)
+
+Definition plan_pipe (twokeys : bool) (app src : nat) : nat := if twokeys then app * 8 + src + 1 else app + 1.
+
+Definition stream_lt (a b : nat * nat) : bool :=
+  Nat.ltb (fst a) (fst b) || (Nat.eqb (fst a) (fst b) && Nat.ltb (snd a) (snd b)).
+
+Fixpoint bump (k : nat * nat) (l : list ((nat * nat) * nat)) : list ((nat * nat) * nat) :=
+  match l with
+  | [] => [(k, 1)]
+  | (k', n) :: r =>
+    if stamp_eqb k k' then (k', S n) :: r
+    else if stream_lt k k' then (k, 1) :: l
+    else (k', n) :: bump k r
+  end.
+
+Record plan_sum := mkPS { ps_streams : list ((nat * nat) * nat); ps_filtered : nat; ps_malformed : nat }.
+
+Fixpoint plan_fold (twokeys : bool) (recs : list (list nat)) (a : plan_sum) : plan_sum :=
+  match recs with
+  | [] => a
+  | [conn; cls; app; src] :: r =>
+    let a' :=
+      match cls with
+      | 1 => mkPS (ps_streams a) (S (ps_filtered a)) (ps_malformed a)
+      | 2 => mkPS (ps_streams a) (ps_filtered a) (S (ps_malformed a))
+      | _ => mkPS (bump (conn, plan_pipe twokeys app src) (ps_streams a)) (ps_filtered a) (ps_malformed a)
+      end in
+    plan_fold twokeys r a'
+  | _ :: r => plan_fold twokeys r a
+  end.
+
+Definition render_streams (l : list ((nat * nat) * nat)) : bytes :=
+  join 59 (map (fun e => dec_nat (fst (fst e)) ++ [47%N] ++ dec_nat (snd (fst e)) ++ [58%N] ++ dec_nat (snd e)) l).
+
+Definition decode_plan (zs : list Z) : option (bool * list (list nat)) :=
+  match zs with
+  | [] => None
+  | _seed :: zs' =>
+  match rd_list rd_nat 3 zs' with
+  | Some ([variant; _; nconn], r) =>
+    match rd_list rd_nat nconn r with
+    | Some (_, r1) =>
+      match rd_counted (rd_list rd_nat 4) r1 with
+      | Some (recs, []) => Some (Nat.odd variant, recs)
+      | _ => None
+      end
+    | None => None
+    end
+  | _ => None
+  end
+  end.
+
+Definition run_plan_case (c : case) : bytes :=
+  match decode_plan (c_zargs c) with
+  | None => bad_case_output
+  | Some (twokeys, recs) =>
+    let a := plan_fold twokeys recs (mkPS [] 0 0) in
+    str [111;107;58;115;61] ++ render_streams (ps_streams a)
+    ++ str [44;102;61] ++ dec_nat (ps_filtered a) ++ str [44;109;61] ++ dec_nat (ps_malformed a)
+  end.
+
+Definition run_case_C01 (c : case) : bytes :=
+  if N.eqb (c_kind c) 1 then run_plan_case c
+  else if N.eqb (c_kind c) 2 then run_trace_case c
+  else bad_case_output.
